@@ -164,6 +164,15 @@ impl SrcBuilder<'_> {
             .get_node_try_into_terminal_variant_name_variant_index_fns_src()
             .indent(1);
 
+        // If the terminal enum has zero variants, `match terminal {}` does not
+        // compile when `terminal` is a reference (a reference is always
+        // considered inhabited). We must match on the referent instead.
+        let terminal_ref_deref = if file.terminal_enum.variants.is_empty() {
+            "*"
+        } else {
+            ""
+        };
+
         let num_of_quasiterminal_kind_variants = file.terminal_enum.variants.len() + 1;
         let num_of_nonterminal_kind_variants = file.nonterminals.len();
         let num_of_state_variants = table.state_count();
@@ -285,7 +294,7 @@ impl {quasiterminal_kind_enum_name} {{
     }}
 
     fn from_terminal(terminal: &{terminal_enum_name}) -> Self {{
-        match terminal {{
+        match {terminal_ref_deref}terminal {{
 {quasiterminal_kind_from_terminal_match_arms_indent_3}
         }}
     }}
